@@ -225,4 +225,27 @@ theorem IntSet.cmp_spec' {d : Domain} (hd : DomWF d) {a b : IntSet} (ha : IInvD 
       rw [← dElems_ranges hd ha, ← dElems_ranges hd hb]
       exact cmpRanges_disc (expand_asc hd.sorted) _ _ a1 b1
 
+/-! ### `NRInv` is the RangeSet invariant of Model/RangeSet.lean -/
+
+/-- the `Nat` range list as a `RangeSet` entry list -/
+def toIntRanges (rs : List (Nat × Nat)) : RangeSet.Ranges :=
+  rs.map (fun p => ((p.1 : Int), (p.2 : Int)))
+
+theorem nrinv_iff_rinv (rs : List (Nat × Nat)) : NRInv rs ↔ RangeSet.RInv (toIntRanges rs) := by
+  simp only [NRInv, RangeSet.RInv, toIntRanges, List.pairwise_map, List.forall_mem_map]
+  constructor
+  · rintro ⟨h1, h2⟩
+    exact ⟨h1.imp (fun h => by omega), fun p hp => by have := h2 p hp; omega⟩
+  · rintro ⟨h1, h2⟩
+    exact ⟨h1.imp (fun h => by omega), fun p hp => by have := h2 p hp; omega⟩
+
+theorem nmem_iff_mem (rs : List (Nat × Nat)) (x : Nat) :
+    NMem rs x ↔ RangeSet.Mem (toIntRanges rs) (x : Int) := by
+  simp only [NMem, RangeSet.Mem, toIntRanges, List.mem_map]
+  constructor
+  · rintro ⟨p, hp, h1, h2⟩
+    exact ⟨((p.1 : Int), (p.2 : Int)), ⟨p, hp, rfl⟩, by simp only; omega, by simp only; omega⟩
+  · rintro ⟨q, ⟨p, hp, rfl⟩, h1, h2⟩
+    exact ⟨p, hp, by simp only at h1; omega, by simp only at h2; omega⟩
+
 end FontVerif.IntSet
